@@ -278,6 +278,8 @@ func (r *Router) deployTargetsIntoService(service *Service, targetSlot TargetSlo
 
 	err = r.installService(service)
 	if err != nil {
+		service.UpdateLoadBalancer(replaced, targetSlot)
+		lb.Dispose()
 		return err
 	}
 
